@@ -21,6 +21,7 @@ import (
 	"os"
 	"regexp"
 	"runtime"
+	"runtime/debug"
 	"sort"
 	"strings"
 	"sync"
@@ -72,9 +73,50 @@ type stand struct {
 	// Start): the handler is mounted by the production code and cannot be
 	// wrapped, so the view is reconstructed with http.ReadRequest.
 	svc bool
+	// tls is true for a bind address with certificates: the harness dials it
+	// with crypto/tls.
+	tls bool
+	// dead is true for a stand whose target URL points at a closed port.
+	dead bool
 
 	mu    sync.Mutex
 	views []view
+}
+
+// dial opens a client connection to the stand.
+func (st *stand) dial() (conn net.Conn, err error) {
+	// The client's end of the connection is one of 127.0.0.2 .. 127.0.0.201, so
+	// that the peer's address differs from the address the server listens on
+	// (and from the one the proxy dials the backend from).
+	dialSeq++
+	d := &net.Dialer{LocalAddr: &net.TCPAddr{IP: net.IPv4(127, 0, 0, byte(2+dialSeq%200))}}
+	if noSourceAddr {
+		d.LocalAddr = nil
+	}
+	if st.tls {
+		return tls.DialWithDialer(d, "tcp", st.tcpAddr, &tls.Config{InsecureSkipVerify: true, NextProtos: []string{"h2", "http/1.1"}})
+	}
+
+	return d.Dial("tcp", st.tcpAddr)
+}
+
+var (
+	dialSeq int
+	// noSourceAddr is set when this machine does not let a client bind
+	// 127.0.0.x (probed once at start-up).
+	noSourceAddr bool
+)
+
+// probeSourceAddr finds out whether clients can choose their loopback address.
+func probeSourceAddr(addr string) {
+	d := &net.Dialer{LocalAddr: &net.TCPAddr{IP: net.IPv4(127, 0, 0, 2)}, Timeout: 2 * time.Second}
+	conn, err := d.Dial("tcp", addr)
+	if err != nil {
+		noSourceAddr = true
+
+		return
+	}
+	_ = conn.Close()
 }
 
 type world struct {
@@ -88,6 +130,15 @@ type world struct {
 	// bare stand that shares its target URL value with stand 0.
 	svcIdx  []int
 	twinIdx int
+	// round 4: the decoy server, the web service built by the cmd builder with
+	// its linked-IP stands and its non-DoH bind address, the stand whose
+	// target is down.
+	decoy     *httptest.Server
+	decoyHits []seen
+	wiredSvc  *websvc.Service
+	wiredIdx  []int
+	nonLinked *stand
+	deadIdx   int
 
 	nextID int
 	// recent holds the last cases with their outcomes, by ID; late holds
@@ -178,6 +229,9 @@ func newWorld() (w *world) {
 					return
 				}
 			}
+		}
+		if w.backendFault(rw, r) {
+			return
 		}
 		rw.Header().Set("Server", "backend")
 		if r.Header.Get(closeHdr) != "" {
@@ -274,6 +328,17 @@ type reqCase struct {
 	// OddWire marks cases whose request line, Host or header syntax (not the
 	// request target) may make net/http refuse the request by itself.
 	OddWire bool `json:"odd_wire,omitempty"`
+	// Fault is what the recording backend is asked to do with this request
+	// (header X-Verif-Fault, see backendFault); Abort makes the client close
+	// its connection before the answer.
+	Fault string `json:"backend_fault,omitempty"`
+	Abort bool   `json:"client_aborts,omitempty"`
+	// RawOverride, when set, is what goes on the wire ("<ID>" is replaced by
+	// the case number); Method and Target repeat its request line.
+	RawOverride string `json:"raw_override,omitempty"`
+	// OnConn describes the sequence of requests this one shared a client
+	// connection with.
+	OnConn string `json:"on_connection,omitempty"`
 }
 
 const caseHdr = "X-Verif-Case"
@@ -282,6 +347,9 @@ const caseHdr = "X-Verif-Case"
 const closeHdr = "X-Verif-Close"
 
 func (c *reqCase) raw() []byte {
+	if c.RawOverride != "" {
+		return []byte(strings.ReplaceAll(c.RawOverride, "<ID>", fmt.Sprint(c.ID)))
+	}
 	var b bytes.Buffer
 	proto := c.Proto
 	if proto == "" {
@@ -338,6 +406,12 @@ func (c *reqCase) canon() string {
 	if c.Body != "" {
 		fmt.Fprintf(&b, "|body:%s", c.Body)
 	}
+	if c.RawOverride != "" {
+		fmt.Fprintf(&b, "|raw:%s", c.RawOverride)
+	}
+	if c.Abort {
+		b.WriteString("|abort")
+	}
 	for _, kv := range c.Hdrs {
 		fmt.Fprintf(&b, "|%s:%s", kv.K, kv.V)
 	}
@@ -367,7 +441,7 @@ func (w *world) run(c *reqCase) (o outcome) {
 		panic("the real-service stand is reachable over TCP only")
 	}
 	if c.TCP {
-		conn, err := net.Dial("tcp", st.tcpAddr)
+		conn, err := st.dial()
 		hlib.Must(err)
 		defer conn.Close()
 		c.WantIP = conn.LocalAddr().(*net.TCPAddr).IP.String()
@@ -378,9 +452,16 @@ func (w *world) run(c *reqCase) (o outcome) {
 				svcView = &view{Method: req.Method, Path: req.URL.Path, Remote: conn.LocalAddr().String(), Hdr: req.Header}
 			}
 		}
-		_, err = conn.Write(c.raw())
-		hlib.Must(err)
+		// (A write error is not fatal: the server may have answered and closed
+		// the connection before it had read the whole request.)
+		_, werr := conn.Write(c.raw())
 		_ = conn.SetReadDeadline(time.Now().Add(10 * time.Second))
+		if c.Abort {
+			// The client goes away while the backend is still busy.
+			time.Sleep(30 * time.Millisecond)
+			_ = conn.Close()
+			time.Sleep(150 * time.Millisecond)
+		}
 		br := bufio.NewReader(conn)
 		resp, err := http.ReadResponse(br, &http.Request{Method: c.Method})
 		for err == nil && resp.StatusCode >= 100 && resp.StatusCode < 200 && resp.StatusCode != http.StatusSwitchingProtocols {
@@ -389,6 +470,9 @@ func (w *world) run(c *reqCase) (o outcome) {
 		}
 		if err != nil {
 			o.ioErr = err
+			if werr != nil {
+				o.ioErr = werr
+			}
 		} else if resp.StatusCode == http.StatusSwitchingProtocols {
 			// The proxy has joined this connection and a backend connection:
 			// show what that means by sending a request no client may make.
@@ -449,6 +533,11 @@ func (w *world) run(c *reqCase) (o outcome) {
 			w.late = append(w.late, rec)
 		}
 	}
+	if !o.parsed && svcView != nil && o.ioErr != nil && len(o.recs) > 0 {
+		// No (complete) answer came back, but the backend was contacted: the
+		// handler did see the request.
+		o.parsed, o.v = true, *svcView
+	}
 
 	return o
 }
@@ -467,7 +556,15 @@ func (w *world) settleLate(r *hlib.Result) {
 		_, _ = fmt.Sscan(rec.Hdr.Get(caseHdr), &id)
 		p := w.recent[id]
 		if p == nil {
+			// Every request this harness sends carries the number of its case;
+			// requests hidden in bodies carry the marker "smuggled".  A record
+			// that belongs to no case is a request the backend received
+			// although no client request (as net/http and the handler read the
+			// connection) stands for it.
 			r.Count("backend.late-record.case-unknown")
+			r.Violate("backend-request-without-client-request", fmt.Sprintf("the backend received %s %q with marker %q and X-Connecting-IP %q, "+
+				"which is not the forwarded form of any request a client sent", rec.Method, rec.URI, rec.Hdr.Get(caseHdr), rec.Hdr["X-Connecting-Ip"]),
+				map[string]any{"backend_saw": rec})
 
 			continue
 		}
@@ -541,6 +638,10 @@ func showHdrs(h http.Header) string {
 func (w *world) modelLine(c *reqCase, o outcome) string {
 	var b strings.Builder
 	v := o.v
+	if w.stands[c.Stand].dead {
+		// nobody listens on the target: op dreq / dwreq
+		b.WriteString("d")
+	}
 	if simpleTarget(c.Method, c.Target) {
 		method, remote := c.Method, c.Remote
 		if o.parsed {
@@ -722,6 +823,14 @@ func (w *world) oracle(r *hlib.Result, c *reqCase, o outcome) {
 			"(rw.* = method of the http.ResponseWriter given to ServeHTTP, Body.Read = the request body, every other P = the net/http/httptrace.ClientTrace " +
 			"hook of that name in the request's context); no goroutines are needed. 'round ...' means real parallel requests"
 	}
+	if c.OnConn != "" {
+		replay["how"] = "write the requests of the sequence to ONE client connection of an http.Server whose Handler is websvc.linkedIPHandler: " + c.OnConn
+	}
+	if c.Fault != "" {
+		replay["backend_behaviour"] = "the backend is asked (header " + faultHdr + ") to: " + c.Fault +
+			" (hangup = close without answer; partial = answer cut short; 101-unasked/101-bare = switch protocols although not asked; " +
+			"redirect = 307 to another server; early-hints = 103 first; slow = answer after 120 ms)"
+	}
 	if o.panicked != nil {
 		r.Violate("handler-panic", fmt.Sprintf("handler panicked: %v", o.panicked), replay)
 
@@ -733,6 +842,10 @@ func (w *world) oracle(r *hlib.Result, c *reqCase, o outcome) {
 		case !o.parsed:
 			// net/http refused the request before the handler; nothing to check
 			// but that the backend stayed untouched (it did).
+		case o.ioErr != nil:
+			// The client read no answer (it went away, or the connection
+			// ended): there is no answer to judge; the backend stayed untouched.
+			r.Count("req.no-answer-read.backend-untouched")
 		case o.status == 404:
 		case isRobots(o) && o.v.Path == "/robots.txt":
 		case o.status == 500 && c.BadRem:
@@ -743,6 +856,10 @@ func (w *world) oracle(r *hlib.Result, c *reqCase, o outcome) {
 			// the error handler of linkedIPHandler writes nothing.  Not one of
 			// the "everything else" requests that must get 404.
 			r.Count("req.api-shaped.refused-by-reverse-proxy")
+		case o.status == 200 && o.body == "" && w.stands[c.Stand].dead && !c.BadRem &&
+			documentedShape(o.v.Method, "/"+strings.TrimPrefix(o.v.Path, "/")):
+			// Nobody listens on the target: the error handler writes nothing.
+			r.Count("req.api-shaped.target-down.empty-answer")
 		case o.status == http.StatusSwitchingProtocols:
 			r.Violate("protocol-switch-tunnel", fmt.Sprintf("client got 101 Switching Protocols for %s %q", o.v.Method, o.v.Path), replay)
 		default:
@@ -1056,6 +1173,20 @@ var hdrNames = []string{"X-Connecting-IP", "x-connecting-ip", "X-CONNECTING-IP",
 	"Upgrade", "upgrade", "HTTP2-Settings", "Origin", "Referer", "Authorization", "Admin-Token", "Cookie", "Via",
 	"X-Proxy-Target", "X-Requested-With", "Te", "Sec-WebSocket-Key"}
 
+// overrideNames are widely used request-override and client-address headers
+// of proxies, frameworks and CDNs other than the ones the code knows: a handler
+// that honoured one of them would decide on one request and forward another,
+// or take the client's address from the client.
+var overrideNames = []string{"X-HTTP-Method-Override", "X-Method-Override", "X-HTTP-Method", "X-Original-Method", "X-Original-URL",
+	"X-Rewrite-URL", "X-Original-URI", "X-Forwarded-Uri", "X-Forwarded-Path", "X-Forwarded-Prefix", "X-Forwarded-Method",
+	"X-Forwarded-Port", "X-Forwarded-Server", "X-Forwarded-Scheme", "X-Forwarded-Ssl", "X-Forwarded", "Forwarded-For",
+	"Client-IP", "X-Client-IP", "X-Cluster-Client-IP", "X-Originating-IP", "X-Remote-IP", "X-Remote-Addr", "X-Host",
+	"Fastly-Client-IP", "X-Azure-ClientIP", "X-Envoy-External-Address", "X-Appengine-User-IP", "X-ProxyUser-IP",
+	"Proxy", "X-Real-Port", "X-Linked-IP", "X-Device-ID"}
+
+var overrideVals = []string{"GET", "POST", "DELETE", "/linkip/dev1234/0123456789", "/ddns/a/b/c", "/admin/link/victim-device",
+	"/linkip/../admin", "6.6.6.6", "2001:db8::6", "for=6.6.6.6", "https", "on", "443", "<backend>", "dev1234"}
+
 var hdrVals = []string{"6.6.6.6", "for=6.6.6.6;proto=https", "", "evil.example", "https", "1.1.1.1, 2.2.2.2", "::1",
 	"10.0.0.1", "ID", "timeout=5", "websocket", "h2c", "WebSocket, h2c", "a\tb", "w\xe9b", "trailers", "127.0.0.1",
 	"1.1.1.1\r\n 6.6.6.6", "\t6.6.6.6\t", "<backend>", "http://<backend>/", "1.1 <backend>", "Basic YWRtaW46YWRtaW4=",
@@ -1086,6 +1217,9 @@ func genHdrs(rng *rand.Rand) (hs []hdrKV) {
 			sep := pick(rng, []string{",", ", ", " ,"})
 			hs = append(hs, hdrKV{K: pick(rng, []string{"Connection", "connection"}), V: strings.TrimSpace(strings.Join(toks, sep))})
 		}
+	}
+	if rng.IntN(5) == 0 {
+		hs = append(hs, hdrKV{K: pick(rng, overrideNames), V: pick(rng, overrideVals)})
 	}
 	if rng.IntN(12) == 0 {
 		// a protocol switch, well formed or nearly so
@@ -1959,7 +2093,7 @@ func (w *world) genDrain(rng *rand.Rand, root *ilvNode, cold bool) (drain []*ilv
 // bareStands are the stands with a wrapped in-process handler.
 func (w *world) bareStands() (idx []int) {
 	for i, st := range w.stands {
-		if !st.svc {
+		if !st.svc && !st.dead {
 			idx = append(idx, i)
 		}
 	}
@@ -2494,6 +2628,13 @@ func main() {
 		"it was forwarded, answered 500/robots, or refused under an API prefix; distinct = distinct canonical requests"
 	m := hlib.StartModel(o.Model, "C19")
 	defer m.Close()
+	defer func() {
+		// The check quotes the last line of a failed run: make it the reason.
+		if p := recover(); p != nil {
+			fmt.Fprintf(os.Stderr, "%s\nharness panic: %v\n", debug.Stack(), p)
+			os.Exit(2)
+		}
+	}()
 	// The error log of the proxy quotes request paths byte for byte; the
 	// harness output must stay valid UTF-8.
 	aglog.SetOutput(io.Discard)
@@ -2502,6 +2643,19 @@ func main() {
 	w.startService()
 	svcIdx := w.svcIdx[0]
 	defer func() { _ = w.svc.Shutdown(context.Background()) }()
+	w.startDecoy()
+	defer w.decoy.Close()
+	probeSourceAddr(w.stands[0].tcpAddr)
+	if noSourceAddr {
+		r.Count("tcp.client-source-address.not-available")
+	} else {
+		r.Count("tcp.client-source-address.127.0.0.x")
+	}
+	nRandomStands := len(w.stands)
+	cleanupWired := w.startWired()
+	defer cleanupWired()
+	w.deadIdx = w.addBareStand("http://127.0.0.1:1/api", 2*time.Second)
+	w.stands[w.deadIdx].dead = true
 
 	fc := fixedCases()
 	for _, c := range fixedCases() {
@@ -2518,7 +2672,7 @@ func main() {
 	}
 	cases := make([]*reqCase, n)
 	for i := range cases {
-		cases[i] = genCase(rng, len(w.stands))
+		cases[i] = genCase(rng, nRandomStands)
 		if c := cases[i]; w.stands[c.Stand].svc {
 			c.TCP, c.Remote, c.WantIP, c.BadRem = true, "", "", false
 		}
@@ -2534,6 +2688,19 @@ func main() {
 	r.Count("req.edit-distance-1-exhaustive")
 	w.reqCampaign(o, r, m, hdrSweepCases())
 	r.Count("hdr.exhaustive-name-x-spelling-x-multiplicity-x-connection")
+	osc := overrideSweepCases()
+	for _, c := range osc {
+		for i := range c.Hdrs {
+			c.Hdrs[i].V = strings.ReplaceAll(c.Hdrs[i].V, "<backend>", strings.TrimPrefix(w.backend.URL, "http://"))
+		}
+	}
+	w.reqCampaign(o, r, m, osc)
+	r.Count("hdr.exhaustive-override-name-x-value-x-request")
+	w.reqCampaign(o, r, m, boundaryCases())
+	r.Count("req.length-boundaries")
+	w.wiredCampaign(o, r, m, o.Rand("wired"))
+	w.faultCampaign(o, r, m, o.Rand("fault"))
+	w.connCampaign(o, r, m, o.Rand("conn"))
 	w.ilvCampaign(o, r, m, o.Rand("ilv"))
 	if len(r.Violations) == 0 {
 		// Real parallelism adds no information once a schedule without any
